@@ -282,6 +282,102 @@ pub fn u128_item_for(h1: u64, h2: u64, seed: u64) -> u128 {
     u128::from_le_bytes(murmur3_preimage16(h1, h2, seed))
 }
 
+/// Streaming form of the reference MurmurHash3-x64-128 (same block and finalisation steps, input in pieces): used
+/// for inputs too long to hold in one slice.
+pub struct Murmur3Stream {
+    h1: u64,
+    h2: u64,
+    len: u64,
+    buf: Vec<u8>,
+}
+impl Murmur3Stream {
+    pub fn new(seed: u64) -> Self {
+        Murmur3Stream { h1: seed, h2: seed, len: 0, buf: Vec::with_capacity(16) }
+    }
+    fn block(&mut self, b: &[u8]) {
+        const C1: u64 = 0x87c37b91114253d5;
+        const C2: u64 = 0x4cf5ad432745937f;
+        let mut k1 = rd64(b);
+        let mut k2 = rd64(&b[8..]);
+        k1 = k1.wrapping_mul(C1).rotate_left(31).wrapping_mul(C2);
+        self.h1 ^= k1;
+        self.h1 = self.h1.rotate_left(27).wrapping_add(self.h2).wrapping_mul(5).wrapping_add(0x52dce729);
+        k2 = k2.wrapping_mul(C2).rotate_left(33).wrapping_mul(C1);
+        self.h2 ^= k2;
+        self.h2 = self.h2.rotate_left(31).wrapping_add(self.h1).wrapping_mul(5).wrapping_add(0x38495ab5);
+    }
+    pub fn update(&mut self, mut data: &[u8]) {
+        self.len += data.len() as u64;
+        if !self.buf.is_empty() {
+            let need = 16 - self.buf.len();
+            let take = need.min(data.len());
+            self.buf.extend_from_slice(&data[..take]);
+            data = &data[take..];
+            if self.buf.len() == 16 {
+                let b = std::mem::take(&mut self.buf);
+                self.block(&b);
+            }
+        }
+        while data.len() >= 16 {
+            let (b, rest) = data.split_at(16);
+            self.block(b);
+            data = rest;
+        }
+        self.buf.extend_from_slice(data);
+    }
+    pub fn finish(mut self) -> (u64, u64) {
+        // tail + finalisation: the one-shot reference applied to the buffered tail with the running state
+        const C1: u64 = 0x87c37b91114253d5;
+        const C2: u64 = 0x4cf5ad432745937f;
+        let tail = std::mem::take(&mut self.buf);
+        let (mut k1, mut k2) = (0u64, 0u64);
+        for (i, &b) in tail.iter().enumerate() {
+            if i < 8 {
+                k1 |= (b as u64) << (8 * i);
+            } else {
+                k2 |= (b as u64) << (8 * (i - 8));
+            }
+        }
+        if tail.len() > 8 {
+            self.h2 ^= k2.wrapping_mul(C2).rotate_left(33).wrapping_mul(C1);
+        }
+        if !tail.is_empty() {
+            self.h1 ^= k1.wrapping_mul(C1).rotate_left(31).wrapping_mul(C2);
+        }
+        let (mut h1, mut h2) = (self.h1 ^ self.len, self.h2 ^ self.len);
+        h1 = h1.wrapping_add(h2);
+        h2 = h2.wrapping_add(h1);
+        let fmix = |mut k: u64| {
+            k ^= k >> 33;
+            k = k.wrapping_mul(0xff51afd7ed558ccd);
+            k ^= k >> 33;
+            k = k.wrapping_mul(0xc4ceb9fe1a85ec53);
+            k ^= k >> 33;
+            k
+        };
+        h1 = fmix(h1);
+        h2 = fmix(h2);
+        h1 = h1.wrapping_add(h2);
+        h2 = h2.wrapping_add(h1);
+        (h1, h2)
+    }
+}
+
+/// An item that feeds `chunk` `times` times and then `tail` to the hasher (inputs of several GiB without the memory).
+pub struct Repeated<'a> {
+    pub chunk: &'a [u8],
+    pub times: u64,
+    pub tail: &'a [u8],
+}
+impl std::hash::Hash for Repeated<'_> {
+    fn hash<H: Hasher>(&self, state: &mut H) {
+        for _ in 0..self.times {
+            state.write(self.chunk);
+        }
+        state.write(self.tail);
+    }
+}
+
 /// Self-test against published vectors; exits 2 (infrastructure) if the trusted base is broken.
 pub fn self_test() {
     let fox = b"The quick brown fox jumps over the lazy dog";
@@ -292,7 +388,15 @@ pub fn self_test() {
         && xxh64(b"Nobody inspects the spammish repetition", 0) == 0xfbcea83c8a378bf1
         && [(0u64, 0u64, 0u64), (u64::MAX, 1, 9001), (0x0123456789abcdef, 0, 12345), (1 << 63, u64::MAX, u64::MAX)]
             .iter()
-            .all(|&(a, b, sd)| murmur3_x64_128(&murmur3_preimage16(a, b, sd), sd) == (a, b) && Recorder::bytes_of(&u128_item_for(a, b, sd)) == murmur3_preimage16(a, b, sd).to_vec());
+            .all(|&(a, b, sd)| murmur3_x64_128(&murmur3_preimage16(a, b, sd), sd) == (a, b) && Recorder::bytes_of(&u128_item_for(a, b, sd)) == murmur3_preimage16(a, b, sd).to_vec())
+        && (0..60usize).all(|n| {
+            let data: Vec<u8> = (0..n as u8).map(|i| i.wrapping_mul(37)).collect();
+            let mut st = Murmur3Stream::new(n as u64);
+            for c in data.chunks(7) {
+                st.update(c);
+            }
+            st.finish() == murmur3_x64_128(&data, n as u64)
+        });
     if !ok {
         eprintln!("reference hash self-test failed: trusted base broken");
         std::process::exit(2);
